@@ -275,7 +275,11 @@ pub async fn scenario() {
 		let (pace, end) = (paces[i], ends[i]);
 		let nonce = i as u64 + 1;
 		let peer_done = peer_done.clone();
-		let hand_over = if pred == Some(i) { stale_tx.take() } else { None };
+		let mut hand_over = if pred == Some(i) { stale_tx.take() } else { None };
+		// in half of the successor runs the old handle is given up as soon as the server's close notification has
+		// reached the client, with whatever is still unread in its buffer
+		let undrained = hand_over.is_some() && rt::chance("stale_handle_undrained", 1, 2);
+		let (wire_c, pushes_c) = (wire.clone(), pushes.clone());
 		hs.push(rt::spawn("consumer", async move {
 			let r: Result<Subscription<Value>, Error> = client.subscribe("sub", rpc_params![nonce], "unsub").await;
 			let mut sub = match r {
@@ -293,6 +297,19 @@ pub async fn scenario() {
 			rt::event("subscribed", format!("nonce={nonce} sid={sid}"));
 			let mut taken = 0u32;
 			loop {
+				if undrained {
+					// (a close notification that reached the client before the subscription was accepted closed nothing)
+					let accepted_at = subs.lock().unwrap()[i].accept_seq.and_then(|q| wire_c.delivered_stamp(q));
+					let close_delivered = pushes_c.lock().unwrap().iter().any(|p| matches!(&p.kind, PushKind::Close { sub } if *sub == sid) && wire_c.delivered_stamp(p.seq).is_some_and(|d| accepted_at.is_some_and(|a| d > a)));
+					if close_delivered {
+						if let Some(tx) = hand_over.take() {
+							let st = rt::event("user-gives-up-undrained", format!("nonce={nonce}"));
+							rt::probe("stale_handle_with_unread_items");
+							subs.lock().unwrap()[i].user_end = Some((st, "drop"));
+							return tx.send(sub).err();
+						}
+					}
+				}
 				match end {
 					EndAct::UnsubscribeAfter(k) if taken >= k => {
 						let st = rt::event("user-unsubscribe", format!("nonce={nonce}"));
@@ -331,7 +348,7 @@ pub async fn scenario() {
 					None => {
 						let st = rt::event("stream-ended", format!("nonce={nonce} {:?}", sub.close_reason()));
 						subs.lock().unwrap()[i].ended = Some((st, format!("{:?}", sub.close_reason())));
-						if let Some(tx) = hand_over {
+						if let Some(tx) = hand_over.take() {
 							// the ended handle stays alive a little longer, in somebody else's hands
 							return tx.send(sub).err();
 						}
@@ -349,8 +366,9 @@ pub async fn scenario() {
 		hs.push(rt::spawn("successor", async move {
 			let Ok(stale) = stale_rx.await else { return None };
 			let Some(client) = client.upgrade() else { return Some(stale) };
-			if !matches!(stale.close_reason(), Some(jsonrpsee_core::client::SubscriptionCloseReason::ConnectionClosed)) {
-				// (lagged instead of closed by the server: not the case this mode is after)
+			// (lagged instead of closed by the server is not the case this mode is after; a handle that was not read to
+			// its end does not know yet why it ended)
+			if matches!(stale.close_reason(), Some(jsonrpsee_core::client::SubscriptionCloseReason::Lagged)) {
 				return Some(stale);
 			}
 			let r: Result<Subscription<Value>, Error> = client.subscribe("sub", rpc_params![succ_nonce], "unsub").await;
